@@ -7,6 +7,7 @@ import (
 	"path/filepath"
 	"sort"
 	"strings"
+	"sync"
 )
 
 // The must-fail corpus: /verif/seeded/<name>/ holds property-breaking changes written by
@@ -25,6 +26,7 @@ func mustFailCorpus(id string) mustFailResult {
 	sort.Strings(dirs)
 	detected, skipped := []string{}, []string{}
 	res.missed = []string{}
+	var todo []string
 	for _, d := range dirs {
 		data, err := os.ReadFile(filepath.Join(d, "meta.json"))
 		if err != nil {
@@ -36,46 +38,38 @@ func mustFailCorpus(id string) mustFailResult {
 		if json.Unmarshal(data, &meta) != nil {
 			continue
 		}
-		want := false
 		for _, p := range meta.ExpectDetect {
 			if p == id {
-				want = true
+				todo = append(todo, d)
+				break
 			}
 		}
-		if !want {
-			continue
+	}
+	type outcome struct {
+		name, kind, why string // kind: detected | missed | skipped
+	}
+	results := make([]outcome, len(todo))
+	sem := make(chan struct{}, 3) // three changes at a time: each run is a portfolio of solvers itself
+	var wg sync.WaitGroup
+	for i, d := range todo {
+		wg.Add(1)
+		go func(i int, d string) {
+			defer wg.Done()
+			sem <- struct{}{}
+			defer func() { <-sem }()
+			results[i] = runMustFail(id, d)
+		}(i, d)
+	}
+	wg.Wait()
+	for _, r := range results {
+		switch r.kind {
+		case "detected":
+			detected = append(detected, r.name)
+		case "missed":
+			res.missed = append(res.missed, r.name)
+		default:
+			skipped = append(skipped, r.name+" ("+r.why+")")
 		}
-		name := filepath.Base(d)
-		scratch, err := os.MkdirTemp("", "vfy_mf_")
-		if err != nil {
-			skipped = append(skipped, name+" (no scratch directory)")
-			continue
-		}
-		tree := filepath.Join(scratch, "tree")
-		cp := exec.Command("rsync", "-a", "--exclude", ".git", repoRoot+"/", tree+"/")
-		if out, err := cp.CombinedOutput(); err != nil {
-			skipped = append(skipped, name+" (copy failed: "+firstLines(string(out), 1)+")")
-			os.RemoveAll(scratch)
-			continue
-		}
-		ap := exec.Command("git", "apply", filepath.Join(d, "patch.diff"))
-		ap.Dir = tree
-		if _, err := ap.CombinedOutput(); err != nil {
-			// the tree under test differs from the pinned one where this change applies
-			skipped = append(skipped, name+" (does not apply to this tree)")
-			os.RemoveAll(scratch)
-			continue
-		}
-		run := exec.Command(os.Args[0], "check", id, "--repo", tree, "--out", filepath.Join(scratch, "out"), "--tier", "quick", "--nocorpus")
-		run.Env = append(os.Environ(), "VERIF_TIER=quick")
-		out, _ := run.CombinedOutput()
-		code := run.ProcessState.ExitCode()
-		if code != 0 && (strings.Contains(string(out), "VIOLATION property="+id) || strings.Contains(string(out), "BROKEN")) {
-			detected = append(detected, name)
-		} else {
-			res.missed = append(res.missed, name)
-		}
-		os.RemoveAll(scratch)
 	}
 	res.summary["changes_expected_to_be_detected"] = len(detected) + len(res.missed) + len(skipped)
 	res.summary["detected"] = detected
@@ -83,4 +77,37 @@ func mustFailCorpus(id string) mustFailResult {
 	res.summary["skipped"] = skipped
 	res.summary["how"] = "each change (seeded/<name>/patch.diff, written by a sub-agent that saw only the property text) is applied to a scratch copy of the tree under test; the quick check of this property must report a violation"
 	return res
+}
+
+func runMustFail(id, d string) (r struct{ name, kind, why string }) {
+	r.name = filepath.Base(d)
+	scratch, err := os.MkdirTemp("", "vfy_mf_")
+	if err != nil {
+		r.kind, r.why = "skipped", "no scratch directory"
+		return
+	}
+	defer os.RemoveAll(scratch)
+	tree := filepath.Join(scratch, "tree")
+	cp := exec.Command("rsync", "-a", "--exclude", ".git", repoRoot+"/", tree+"/")
+	if out, err := cp.CombinedOutput(); err != nil {
+		r.kind, r.why = "skipped", "copy failed: "+firstLines(string(out), 1)
+		return
+	}
+	ap := exec.Command("git", "apply", filepath.Join(d, "patch.diff"))
+	ap.Dir = tree
+	if _, err := ap.CombinedOutput(); err != nil {
+		// the tree under test differs from the pinned one where this change applies
+		r.kind, r.why = "skipped", "does not apply to this tree"
+		return
+	}
+	run := exec.Command(os.Args[0], "check", id, "--repo", tree, "--out", filepath.Join(scratch, "out"), "--tier", "quick", "--nocorpus")
+	run.Env = append(os.Environ(), "VERIF_TIER=quick")
+	out, _ := run.CombinedOutput()
+	code := run.ProcessState.ExitCode()
+	if code != 0 && (strings.Contains(string(out), "VIOLATION property="+id) || strings.Contains(string(out), "BROKEN")) {
+		r.kind = "detected"
+	} else {
+		r.kind = "missed"
+	}
+	return
 }
